@@ -13,6 +13,25 @@ import (
 
 func execOp(f []string) string {
 	switch f[0] {
+	case "probe": // probe casefold <Sys> <version>: Go-only (outside the ASCII domain of the Lean model)
+		if len(f) != 4 || f[1] != "casefold" {
+			return "bad-op"
+		}
+		sys, ok := semverops.SysNames[f[2]]
+		if !ok {
+			return "bad-op"
+		}
+		s := fw.Unhx(f[3])
+		v, err := sys.Parse(s)
+		if err != nil {
+			return "err"
+		}
+		up, err1 := sys.Parse(strings.ToUpper(s))
+		lo, err2 := sys.Parse(strings.ToLower(s))
+		if err1 != nil || err2 != nil {
+			return "ok rejected"
+		}
+		return fmt.Sprintf("ok %d %d", v.Compare(up), v.Compare(lo))
 	case "refcmp": // refcmp <eco> <astA> <astB>: the published algorithm, transcribed in Go
 		if len(f) != 4 {
 			return "bad-op"
@@ -95,6 +114,13 @@ func recheck(oracle string, ops, res []string) (bool, string) {
 		if !okRes(res[2]) || !okRes(res[3]) || res[2] != res[3] {
 			f := strings.Fields(ops[2])
 			return true, fmt.Sprintf("library: compare(%q, %q) = %s; reference: %s", fw.Unhx(f[3]), fw.Unhx(f[4]), res[2], res[3])
+		}
+	case "maven-casefold": // probe casefold Maven s
+		// ComparableVersion lower-cases the whole string (Locale.ENGLISH) before anything else,
+		// so a version and its upper-/lower-cased spelling are the same version, for every script
+		if res[0] != "err" && res[0] != "ok 0 0" {
+			f := strings.Fields(ops[0])
+			return true, fmt.Sprintf("Maven: %q against its upper-/lower-cased spelling: %s (must be `ok 0 0`)", fw.Unhx(f[4]), res[0])
 		}
 	case "accepts-normal-form": // embed a
 		if !okRes(res[0]) {
@@ -346,6 +372,23 @@ func run(c *fw.Ctx) {
 		}
 		c.Tally(int64(total))
 		c.Note(fmt.Sprintf("%s: %d ordered pairs of accepted spellings, %d (%.1f%%) inside the hypotheses of the partial theorem", eco, total, inside, 100*float64(inside)/float64(max(1, total))))
+	}
+	// Maven is case-insensitive in every script (Go-only probe: the Lean model of ToLower is ASCII)
+	words := []string{"бета", "Бета", "альфа", "АЛЬФА", "été", "ÉTÉ", "Ünï", "ΑΛΦΑ", "αλφα", "Ωmega", "rc", "RC", "Final", "SNAPSHOT", "jre", "ǅ", "ǆ", "İx", "ſt"}
+	for i, n := 0, c.N(400, 6000); i < n; i++ {
+		v := pick(c.Rng, "1", "1.0", "2.1.3", "0.9", "10.0.1")
+		for k := 0; k <= c.Rng.Intn(3); k++ {
+			v += pick(c.Rng, "-", ".", "") + words[c.Rng.Intn(len(words))]
+			if c.Rng.Intn(2) == 0 {
+				v += pick(c.Rng, "-", ".", "") + pick(c.Rng, "1", "2", "0")
+			}
+		}
+		// only case pairs that map back (ToLower(ToUpper(r)) == ToLower(r)), so that both spellings denote one string for Maven
+		if strings.ToLower(strings.ToUpper(v)) != strings.ToLower(v) {
+			continue
+		}
+		k, _ := c.Opf("C02 probe casefold Maven %s", fw.Hx(v))
+		c.Check("maven-casefold", k)
 	}
 	runAdapters(c, pools)
 }
